@@ -669,8 +669,7 @@ func tail(s string, n int) string {
 func runFuzz(id, target string, seconds int, work string) (map[string]interface{}, string, error) {
 	harness := filepath.Join(verifDir, "harness")
 	replayDir := filepath.Join(work, "fuzz-replays-"+target)
-	cacheDir := filepath.Join(work, "fuzzcache-"+target)
-	args := []string{"test", "-run", "^$", "-fuzz", "^" + target + "$", "-fuzztime", fmt.Sprintf("%ds", seconds), "-test.fuzzcachedir=" + cacheDir}
+	args := []string{"test", "-run", "^$", "-fuzz", "^" + target + "$", "-fuzztime", fmt.Sprintf("%ds", seconds)}
 	if repoDir != "/repo" {
 		args = append(args, "-modfile="+filepath.Join(work, "go.mod"))
 	}
